@@ -225,8 +225,40 @@ let gen_typing ~(emit : Sexp.t -> unit) : unit =
             emit (L [ A "diag"; A (hex (prefix ^ src)); A (hex marked) ]))
         [ ""; "# c \xc3\xa9\n"; "\n\n"; "z0 = 1\n"; "z0 = 1; " ]) typing_templates
 
+(* (e) every scoping diagnostic on a minimal program: a name bound twice, through each binder form (plain,
+   annotated and implicit functions, function types, definitions, at any nesting), and a name that is not
+   bound, in each position a name can stand in; the diagnostic must name the identifier and mark exactly it.
+   `%` stands for the name. *)
+let scoping_templates : (string * string) list =
+  [ ("% = 1; f = % => %; f", "exists"); ("% = 1; f = (% : int) => %; f", "exists"); ("% = 1; f = {%} => 2; f", "exists");
+    ("% = 1; f = {% : int} => 2; f", "exists"); ("% = type; t = (% : int) -> int; 1", "exists");
+    ("% = type; t = {% : type} -> int; 1", "exists"); ("% = 1; y = (% = 2; 3); y", "exists"); ("% = 1; % = 2; 3", "exists");
+    ("(% : int) => (% : int) => 1", "exists"); ("% => % => 1", "exists"); ("% => {%} => 1", "exists"); ("{%} => % => 1", "exists");
+    ("{%} => {%} => 1", "exists"); ("(% : int) => (q = 1; % = 2; q)", "exists"); ("(% : type) -> (% : int) -> int", "exists");
+    ("(y : a) => {a} => (z : a) => z", "scopea");
+    ("q => %", "scope"); ("{q} => %", "scope"); ("(q : %) => q", "scope"); ("{q : %} => 1", "scope"); ("q : % = 1; q", "scope");
+    ("q = %; 1", "scope"); ("(q : int) -> %", "scope"); ("% -> int", "scope"); ("1 + %", "scope"); ("f = (n : int) => n; f %", "scope");
+    ("if % then 1 else 2", "scope"); ("-%", "scope") ]
+
+let gen_scoping ~(emit : Sexp.t -> unit) : unit =
+  List.iter (fun (tpl, kind) ->
+      List.iter (fun name ->
+          let src = Str.global_replace (Str.regexp_string "%") name tpl in
+          let name = if kind = "scopea" then "a" else name in
+          List.iter (fun prefix ->
+              if not (src.[0] = '-' && prefix <> "" && prefix.[String.length prefix - 1] <> ' ') then begin
+                emit (L [ A "diag"; A (hex (prefix ^ src)); A (hex name); A "scope" ]);
+                (* the same program with every blank between tokens turned into a line break plus indentation
+                   where the layout rule allows it (no line break is inserted: blanks become two blanks), and with
+                   the braces / parentheses on their own lines *)
+                let spread = Str.global_replace (Str.regexp_string "{") "{\n  " (Str.global_replace (Str.regexp_string "}") "\n}" src) in
+                if spread <> src then emit (L [ A "diag"; A (hex (prefix ^ spread)); A (hex name); A "scope" ])
+              end)
+            [ ""; "# c \xc3\xa9\n"; "w\xc3\xa9 = 1\n"; "z0 = 1; " ])
+        [ "x"; "\xc3\xa9t\xc3\xa9"; "_v1" ]) scoping_templates
+
 let gen ~(tier : string) ~(seed : int) ~(emit : Sexp.t -> unit) : unit =
-  gen_main ~tier ~seed ~emit; gen_typing ~emit
+  gen_main ~tier ~seed ~emit; gen_typing ~emit; gen_scoping ~emit
 
 (* ------------------------------------------------------------------------------ checking *)
 let has (m : string) (p : string) = (try ignore (Str.search_forward (Str.regexp_string p) m 0); true with Not_found -> false)
@@ -267,6 +299,7 @@ let check (case : Sexp.t) (res : Sexp.t) : [ `Ok | `Mismatch of string | `Proper
     if model = out then (`Ok, shown <> []) else (`Mismatch ("listing differs from the model:\n" ^ model), true)
   | L (A "diag" :: h :: expected), L [ A "diag"; A stage; toks; parsed; L (A "msgs" :: msgs); _ ] ->
     let src = unhex h in
+    let scope_expected = (match expected with [ e; A "scope" ] -> Some (unhex e) | _ -> None) in
     let expected = (match expected with [ e ] -> Some (unhex e) | _ -> None) in
     let msgs = List.map unhex msgs in
     let node_result =
@@ -327,6 +360,18 @@ let check (case : Sexp.t) (res : Sexp.t) : [ `Ok | `Mismatch of string | `Proper
                           (String.concat ", " (List.map (fun x -> "`" ^ x ^ "`") marks)))
            | None, Some want when stage <> "type" -> Some (Printf.sprintf "a minimal ill-typed program (fault at `%s`) is not reported by the type checker (stage %s)" want stage)
            | _ -> problem) in
+       (* minimal programs with a known scoping fault: a scoping diagnostic must name the identifier (checked
+          above to be the marked text) *)
+       let problem = (match problem, scope_expected with
+           | None, Some want ->
+             let named = List.filter_map (fun m ->
+                 match Str.bounded_split (Str.regexp_string "\n\n") m 2 with
+                 | head :: _ when has head "not in scope" || has head "already exists" -> between_ticks head
+                 | _ -> None) msgs in
+             if List.mem want named then None
+             else Some (Printf.sprintf "the scoping fault at `%s` of this minimal program is not reported (stage %s; diagnostics name %s)" want stage
+                          (String.concat ", " (List.map (fun x -> "`" ^ x ^ "`") named)))
+           | _ -> problem) in
        (match problem with
         | Some p -> (`Property p, true)
         | None -> (`Ok, msgs <> [] || nodes <> [])))
@@ -337,7 +382,7 @@ let search (_ : Sexp.t) ~(emit : Sexp.t -> unit) : unit = ignore emit
 let describe (case : Sexp.t) : string * int =
   match case with
   | L [ A "listing"; h; _; _ ] -> ("listing", (String.length (atom h) - 2) / 8)
-  | L [ A "diag"; h ] -> ("diag", (String.length (atom h) - 2) / 8)
+  | L (A "diag" :: h :: _) -> ("diag", (String.length (atom h) - 2) / 8)
   | _ -> ("?", 0)
 let tags (_ : Sexp.t) (res : Sexp.t) : string list =
   match res with L (A "diag" :: A st :: _) -> [ "stage:" ^ st ] | L (A k :: _) -> [ k ] | _ -> [ "other" ]
